@@ -107,7 +107,50 @@ def report(ctx, pid, recs, model, props, what, relevant=None, extra_cov=None, as
     return core.finish(ctx, "proof", cov, assumptions or [])
 
 
-def replay(ctx, pid, obj):
-    """re-execute a stored scenario against /repo's current code and the model.
-    (vscen.replay keeps the stored inspection-log path: it is part of signed content and must not be rewritten)"""
-    return vscen.replay(ctx, pid, obj)
+def replay(ctx, pid, obj, outs=None):
+    """re-execute a stored scenario against /repo's current code and the model
+    (outs: optional list receiving the implementation's outcome)"""
+    outs_sink = outs
+    import time as _t
+    r = obj["replay"]
+    req = r["request"]
+    wd = os.path.join(ctx.work, "sc")
+    os.makedirs(wd, exist_ok=True)
+    scen = {"root": req["root"], "dir": req["dir"], "keys": req["keys"], "params": req["params"],
+            "now_us": req["now_us"], "tags": r.get("tags", []), "logpath": os.path.join(wd, "insp.log")}
+    # inspection commands mention the log path of the original run, and they are part of the SIGNED layouts:
+    # the path cannot be rewritten (the real signatures would break); re-create the original directory instead
+    import re as _re
+    import shutil as _sh
+    made = None
+    m = _re.search(r">> (\S+insp\.log)", json.dumps(req))
+    if m:
+        old_log = m.group(1)
+        scen["logpath"] = old_log
+        d = os.path.dirname(old_log)
+        top = d
+        while top and not os.path.exists(os.path.dirname(top)):
+            top = os.path.dirname(top)
+        if not os.path.exists(d):
+            os.makedirs(d)
+            made = top
+    try:
+        outs, exec_table = vscen.run_impl(scen, wd)
+    finally:
+        if made and os.path.realpath(made).startswith(os.path.realpath(core.ROOT) + os.sep):
+            _sh.rmtree(made, ignore_errors=True)
+    req["exec"] = exec_table
+    model = core.Model()
+    a = model.batch([("verify", req)])[0]
+    mo = vscen.norm_model_outcome(a) if isinstance(a, dict) else {"err": "driver"}
+    d = vscen.compare(outs[0], mo)
+    if outs_sink is not None:
+        outs_sink.append(outs[0])
+    print("impl :", {k: v for k, v in outs[0].items() if k != "ok"} or "accept", "" if "ok" not in outs[0] else "(accept)")
+    print("model:", {k: v for k, v in mo.items() if k != "ok"}, "" if "ok" not in mo else "(accept)")
+    if d and d != "unmodelled":
+        print("  -> " + d)
+        print("VIOLATION property=%s replay=%s" % (pid, obj.get("rerun", "").split()[-1]))
+        return 1
+    print("agree")
+    return 0
